@@ -23,8 +23,8 @@
 (*                                                                                                            *)
 (* Record r: [op, nauto, gc, edge, rmask, hasgc, hasrmask, hasdepth, ref, tgt, ant, err, errkind, out, var]   *)
 (*   op = "fix" (one call) or "fix_scale2k" / "fix_scalef" / "fix_perm" (a pair of calls);                    *)
-(*   var = [kind, k, k16, tperm, aperm, err, out]: the second run of the pair (depth x 2^k, k16 = 16 k; depth x   *)
-(*   fnum/fden, k16 = round(16 log2 of it); rows permuted by tperm / aperm / rperm).                           *)
+(*   var = [kind, k, k16, tperm, aperm, err, out]: the second run of the pair -- depth x 2^k (k16 = 16 k),    *)
+(*   depth x fnum/fden (k16 = round(16 log2 of it)), or rows permuted by tperm / aperm / rperm.               *)
 EXTENDS Stats
 
 LU == 1024
@@ -381,7 +381,7 @@ NullBinEstimated(r) ==
         /\ LET bins == ClassBins(r, K) IN \E i \in 1..Len(bins) : bins[i][1][5] = 1
 MoveCovered(t, d) == [i \in 1..Len(t) |-> IF t[i][5] = 1 THEN t[i] ELSE <<t[i][1], t[i][2], t[i][3], t[i][4] + d, t[i][5]>>]
 ModelDependsOnScale(r) ==
-    LET d == r.var.k16 * 64
+    LET d == IF r.var.k16 = 0 THEN 64 ELSE r.var.k16 * 64      \* a factor within 2^(1/32) of 1: probe with one grid step
         a == AFix(r)
         b == AFix([r EXCEPT !.tgt = Force(MoveCovered(r.tgt, d)), !.ant = Force(MoveCovered(r.ant, d))])
     IN \E j \in 1..Len(a) : a[j][5] = 0 /\ a[j][4] # b[j][4]
